@@ -215,6 +215,27 @@ CHECKS["C20"] = dict(
 PENDING = {}
 
 
+# theorems added in the second round (appended to the level texts)
+ROUND2 = {
+    "C01": " Whole-solve form for the semi-asynchronous solver (semiasync_solve_near_optimal): for every per-sweep permutation sequence, start state, "
+           "checkpoint frequency and budget, a solve() that reports convergence under max_diff returns values within eps of V* and a policy within 2*gamma*eps/(1-gamma).",
+    "C03": " semiasync_bound_every_partition: the semi-asynchronous bound holds for every valid layout (universally quantified over batch size x device count).",
+    "C04": " rvi_values_bounded: after any number of iterations every relative value is within sp(V0 - h) of h(i) - h(last) + g (no growth with n).",
+    "C05": " pi_solve_stops_only_when_stable: a whole solve() call reports convergence only when the last improvement step left the evaluated policy unchanged; otherwise exactly k iterations.",
+    "C07": " periodic_solve_gain: a whole solve() from a fresh solver that reports convergence at gamma = 1 has run n >= period sweeps, returns the n-th VI iterate, "
+           "and every component of (V_n - V_(n-period))/period is within eps/period of g.",
+    "C09": " shuffled_resume_within_bound: from any restored snapshot, with any permutation sequence, a resumed semi-asynchronous solve that reports convergence meets the C01 bound.",
+    "C12": " applySaves_exact: after any sequence of save events the directory holds exactly the m most recent of (previous steps ++ accepted events); "
+           "final_iteration_retained: the last iteration of the most recent call is the newest step.",
+    "C13": " combos_perm_splits / mirjalili_dist: the Mirjalili event space's filtered product is exactly the multinomial support, so every (weekday, order) row sums to one for all sizes; "
+           "hendrix_row_sum: exact mass of every Hendrix row (the recorded truncation finding in closed form).",
+    "C16": " hendrix_cell_is_joint_law: the four masked arrays built from the pu/pz convolution tables equal the enumeration over d_A, d_B and the binomial substitution demand "
+           "inside the truncation region, for all table sizes, stocks and cells; the model row (from the primitive Poisson tables) is compared with the real table.",
+}
+for _k, _v in ROUND2.items():
+    CHECKS[_k]["text"] += _v
+
+
 def main():
     props = [json.loads(l) for l in (V / "properties.jsonl").read_text().splitlines() if l.strip()]
     checks, na = [], []
